@@ -19,7 +19,7 @@ import tempfile
 
 REPO = os.environ.get('VERIF_REPO', '/repo')
 VERIF = os.path.dirname(os.path.dirname(os.path.abspath(__file__)))
-BUILD_ROOT = os.path.join(VERIF, '.build')
+BUILD_ROOT = os.path.join(os.environ.get('VERIF_OUT') or VERIF, '.build')
 PY = '/venv/bin/python'
 
 SAN_CFLAGS = ('-O1 -g -fno-omit-frame-pointer -UNDEBUG '
